@@ -20,7 +20,7 @@ def main():
     chk.build()
     rng = random.Random(chk.seed)
     quick = chk.tier == "quick"
-    cases = C.cpp_schemas(chk.tier, chk.seed, 50 if quick else 700, k=1 if quick else 2, every=1 if quick else 3)
+    cases = C.cpp_schemas(chk.tier, chk.seed, 50 if quick else 150, k=1 if quick else 2, every=1 if quick else 4)
     corp = []
     for pid in ("C07", "C03", "C02", "C01"):
         for f, t, vs, j in codec.load_corpus(pid):
@@ -28,7 +28,7 @@ def main():
                 corp.append(("corpus", f, t))
     cases = corp + cases
     jobs, pyres = C.python_encodings(cases, rng, 2)
-    budget = 30 if quick else 120
+    budget = 30 if quick else 50
     cj = []
     for j in jobs:
         r = pyres.get(j["id"], {})
